@@ -29,6 +29,10 @@ type Result struct {
 	Stats        map[string]int64 `json:"stats,omitempty"`
 	Sample       interface{}      `json:"sample,omitempty"`
 	Sets         map[string][]string `json:"sets,omitempty"` // named sets whose union is reported in evidence
+	// Fingerprints: for cases that enumerate many executions (fault positions), one fingerprint per
+	// distinct non-trivial execution; Evals is the number of executions the case performed.
+	Fingerprints []string `json:"fingerprints,omitempty"`
+	Evals        int64    `json:"evals,omitempty"`
 }
 
 // Case is the context handed to a property's case function.
@@ -115,6 +119,16 @@ func (c *Case) Fingerprint(nt bool, parts ...interface{}) {
 	c.mu.Lock()
 	c.R.Fingerprint = hex.EncodeToString(h[:10])
 	c.R.Nontrivial = nt
+	c.mu.Unlock()
+}
+
+// AddExecution counts one enumerated execution; fp != "" marks it non-trivial with that identity.
+func (c *Case) AddExecution(fp string) {
+	c.mu.Lock()
+	c.R.Evals++
+	if fp != "" {
+		c.R.Fingerprints = append(c.R.Fingerprints, fp)
+	}
 	c.mu.Unlock()
 }
 
